@@ -366,6 +366,8 @@ func (im *Impl) Exec(line string) string {
 			return strings.Join(seen, " ") + " || " + im.Digest()
 		case "votes":
 			return im.Votes()
+		case "digest":
+			return im.Digest()
 		case "proposer":
 			rs := im.C.CS.GetRoundState()
 			return fmt.Sprintf("proposer=%x", rs.Validators.Proposer().Address)
